@@ -41,6 +41,7 @@ if __name__ == "__main__":
         "--ignore",
         nargs='*',
         type=str,
+        default=[],
         help="A space-separated list of classes to ignore. "
         "Class names must include their full namespaces.")
     arg_parser.add_argument(
